@@ -19,6 +19,7 @@ from typing import Dict, List, Optional, Tuple
 _BASELINE: Optional[set] = None
 _BASELINE_PARAMS: Dict[Tuple[str, str], Optional[List[str]]] = {}
 MAX_NODES = 600
+ALL_TREES: Dict[str, ast.Module] = {}  # set by the loader: every package module's tree (cross-module look-ups of new definitions)
 
 
 def baseline() -> set:
@@ -710,6 +711,21 @@ def renest_lifted(tree: ast.Module, relpath: str) -> List[Tuple[str, str]]:
     for qn, d, cls, outer in qs:
         if (relpath, qn) not in base and outer is None:
             new_defs[d.name] = (d, cls)
+    # ... or lifted into ANOTHER module of the package and imported from there (`from pkg.mod import G`)
+    if ALL_TREES:
+        for st_ in ast.walk(tree):
+            if isinstance(st_, ast.ImportFrom) and st_.module and not st_.level:
+                rel2 = st_.module.replace(".", "/") + ".py"
+                t2 = ALL_TREES.get(rel2)
+                if t2 is None or t2 is tree:
+                    continue
+                for al in st_.names:
+                    nm = al.asname or al.name
+                    if nm in new_defs:
+                        continue
+                    for qn2, d2, cls2, outer2 in qualnames(t2):
+                        if qn2 == al.name and cls2 is None and outer2 is None and (rel2, qn2) not in base:
+                            new_defs[nm] = (d2, None)
     if not new_defs:
         return []
     done = []
